@@ -92,7 +92,7 @@ fn err_kind(e: &BuilderError) -> &'static str {
 }
 
 /// spline scenario over data of dimension D (lanes flattened row-major for the output keys)
-fn spline_run<D>(name: &str, n: usize, shape: D, bc_spec: &str, extrap: bool, seed: usize, layout: &str)
+fn spline_run<D>(name: &str, n: usize, shape: D, bc_spec: &str, extrap: bool, seed: usize, layout: &str, strat_name: &str)
 where
     D: Dimension + RemoveAxis,
 {
@@ -141,14 +141,17 @@ where
     };
     let mut outputs: BTreeMap<String, u32> = BTreeMap::new();
     let r = catch_unwind(AssertUnwindSafe(|| {
-        let strat = CubicSpline::new().boundary(bc).extrapolate(extrap);
-        let interp = match Interp1DBuilder::new(data).x(x.clone()).strategy(strat).build() {
-            Ok(i) => i,
-            Err(e) => return format!("builderr:{}", err_kind(&e)),
-        };
         let xs: Vec<f64> = x.iter().map(|s| shadow(*s)).collect();
+        let lin = if strat_name == "linear" {
+            match Interp1DBuilder::new(data.clone()).x(x.clone()).strategy(Linear::new().extrapolate(extrap)).build() { Ok(i) => Some(i), Err(e) => return format!("builderr:{}", err_kind(&e)) }
+        } else { None };
+        let spl = if strat_name != "linear" {
+            let strat = CubicSpline::new().boundary(bc).extrapolate(extrap);
+            match Interp1DBuilder::new(data).x(x.clone()).strategy(strat).build() { Ok(i) => Some(i), Err(e) => return format!("builderr:{}", err_kind(&e)) }
+        } else { None };
         let mut put = |key: &str, q: Sym, outputs: &mut BTreeMap<String, u32>| -> bool {
-            match interp.interp(q) {
+            let res = match (&lin, &spl) { (Some(i), _) => i.interp(q), (_, Some(i)) => i.interp(q), _ => unreachable!() };
+            match res {
                 Ok(arr) => {
                     for (l, v) in arr.iter().enumerate() { outputs.insert(format!("{key}:{l}"), v.0); }
                     true
@@ -176,7 +179,45 @@ where
         "ok".to_string()
     }));
     let result = match r { Ok(s) => s, Err(_) => "panic".to_string() };
-    dump(name, &outputs, &result, &format!("\"n\":{},\"lanes\":{},\"bc\":\"{}\",\"extrap\":{},", n, lanes, json_escape(bc_spec), extrap));
+    dump(name, &outputs, &result, &format!("\"strat\":\"{}\",\"n\":{},\"lanes\":{},\"bc\":\"{}\",\"extrap\":{},", strat_name, n, lanes, json_escape(bc_spec), extrap));
+}
+
+/// Bilinear over symbolic data: one query per cell (and extrapolated corners), lanes flattened
+fn bil_run(name: &str, args: &[String]) {
+    reset();
+    let nx: usize = arg(args, "nx", "3").parse().unwrap();
+    let ny: usize = arg(args, "ny", "3").parse().unwrap();
+    let lanes: usize = arg(args, "lanes", "1").parse().unwrap();
+    let extrap = arg(args, "extrap", "0") == "1";
+    let seed: usize = arg(args, "seed", "0").parse().unwrap();
+    let x = axis("x", nx, seed);
+    let y = axis("y", ny, seed + 3);
+    let flat: Vec<Sym> = (0..nx * ny * lanes).map(|c| var(&format!("z{}_{}_{}", c / (ny * lanes), (c / lanes) % ny, c % lanes), ((c * 5) % 13) as f64 * 0.25 - 1.0)).collect();
+    let data = ndarray::Array3::from_shape_vec((nx, ny, lanes), flat).unwrap();
+    let mut outputs: BTreeMap<String, u32> = BTreeMap::new();
+    let r = catch_unwind(AssertUnwindSafe(|| {
+        let it = match Interp2DBuilder::new(data).x(x.clone()).y(y.clone()).strategy(Bilinear::new().extrapolate(extrap)).build() { Ok(i) => i, Err(e) => return format!("builderr:{}", err_kind(&e)) };
+        let xs: Vec<f64> = x.iter().map(|s| shadow(*s)).collect();
+        let ys: Vec<f64> = y.iter().map(|s| shadow(*s)).collect();
+        let mut put = |key: String, qx: Sym, qy: Sym, outputs: &mut BTreeMap<String, u32>| {
+            match it.interp(qx, qy) {
+                Ok(a) => { for (l, v) in a.iter().enumerate() { outputs.insert(format!("{key}:{l}"), v.0); } }
+                Err(_) => { outputs.insert(format!("{key}:ERR"), 0); }
+            }
+        };
+        for i in 0..nx - 1 { for k in 0..ny - 1 {
+            let qx = var(&format!("qx{i}_{k}"), xs[i] + 0.3125 * (xs[i + 1] - xs[i]));
+            let qy = var(&format!("qy{i}_{k}"), ys[k] + 0.4375 * (ys[k + 1] - ys[k]));
+            put(format!("B:{i}:{k}"), qx, qy, &mut outputs);
+        } }
+        // outside in x, in y, and in both (border cells when extrapolating, Err otherwise)
+        put("BX".into(), var("qxo", xs[nx - 1] + 1.5), var("qyi", ys[0] + 0.25 * (ys[1] - ys[0])), &mut outputs);
+        put("BY".into(), var("qxi", xs[0] + 0.25 * (xs[1] - xs[0])), var("qyo", ys[0] - 2.25), &mut outputs);
+        put("BXY".into(), var("qxo2", xs[0] - 0.75), var("qyo2", ys[ny - 1] + 3.5), &mut outputs);
+        "ok".to_string()
+    }));
+    let result = match r { Ok(s) => s, Err(_) => "panic".to_string() };
+    dump(name, &outputs, &result, &format!("\"strat\":\"bilinear\",\"nx\":{},\"ny\":{},\"n\":{},\"lanes\":{},\"bc\":\"\",\"extrap\":{},", nx, ny, nx, lanes, extrap));
 }
 
 fn arg<'a>(args: &'a [String], key: &str, default: &'a str) -> &'a str {
@@ -196,7 +237,8 @@ fn main() {
         let args: Vec<String> = line.split_whitespace().map(|s| s.to_string()).collect();
         if args.is_empty() { continue; }
         match args[0].as_str() {
-            "spline" => {
+            "spline" | "linear" => {
+                let strat_name = args[0].clone();
                 let n: usize = arg(&args, "n", "4").parse().unwrap();
                 let lanes: Vec<usize> = arg(&args, "lanes", "").split('x').filter(|s| !s.is_empty()).map(|s| s.parse().unwrap()).collect();
                 let bc = arg(&args, "bc", "NotAKnot").to_string();
@@ -208,17 +250,18 @@ fn main() {
                 if dynd {
                     let mut sh = vec![n];
                     sh.extend(lanes.iter());
-                    spline_run(&name, n, IxDyn(&sh), &bc, extrap, seed, &layout);
+                    spline_run(&name, n, IxDyn(&sh), &bc, extrap, seed, &layout, &strat_name);
                 } else {
                     match lanes.len() {
-                        0 => spline_run(&name, n, ndarray::Ix1(n), &bc, extrap, seed, &layout),
-                        1 => spline_run(&name, n, ndarray::Ix2(n, lanes[0]), &bc, extrap, seed, &layout),
-                        2 => spline_run(&name, n, ndarray::Ix3(n, lanes[0], lanes[1]), &bc, extrap, seed, &layout),
-                        3 => spline_run(&name, n, ndarray::Ix4(n, lanes[0], lanes[1], lanes[2]), &bc, extrap, seed, &layout),
+                        0 => spline_run(&name, n, ndarray::Ix1(n), &bc, extrap, seed, &layout, &strat_name),
+                        1 => spline_run(&name, n, ndarray::Ix2(n, lanes[0]), &bc, extrap, seed, &layout, &strat_name),
+                        2 => spline_run(&name, n, ndarray::Ix3(n, lanes[0], lanes[1]), &bc, extrap, seed, &layout, &strat_name),
+                        3 => spline_run(&name, n, ndarray::Ix4(n, lanes[0], lanes[1], lanes[2]), &bc, extrap, seed, &layout, &strat_name),
                         _ => panic!("too many lane axes"),
                     }
                 }
             }
+            "bilinear" => bil_run(line.trim(), &args),
             "probe" => probe::probe(arg(&args, "unit", "")),
             other => entry::dispatch(other, &args, line.trim()),
         }
